@@ -152,6 +152,8 @@ def psiToData (d : PSIData) (fp : Packet) (pid : Nat) : List DemuxerData :=
 /-- the custom PacketsParser kinds the harness can install -/
 inductive ParserKind where
   | none | observer | replacer | failing
+  /-- takes the unit over (skip = true) and returns no data at all -/
+  | dropper
   deriving Repr, DecidableEq, Inhabited
 
 def replacerData (ps : List Packet) : DemuxerData :=
@@ -162,6 +164,7 @@ def parseData (ps : List Packet) (prs : ParserKind) (pm : ProgramMap) : Res (Lis
   match prs with
   | .failing => .err .parser
   | .replacer => .ok [replacerData ps]
+  | .dropper => .ok []
   | _ =>
     let payload := concatPayload ps
     let p0 := ps.headD default
